@@ -141,7 +141,7 @@ func coverStage(name string, cats []*cat.Catalog, b Bounds, timeout time.Duratio
 			}
 			for _, d := range res.Divs {
 				st.Divs[d.Kind]++
-				if len(st.Examples) < maxExamples {
+				if st.Divs[d.Kind] <= maxExamples {
 					st.Examples = append(st.Examples, divExample{Div: d, Line: lr.line, Ci: res.Ci})
 				}
 			}
